@@ -61,6 +61,8 @@ type Engine struct {
 	boxNotes  map[string]bool
 	known     []KnownFinding
 	specQuiet int
+	leafTypes map[string]types.Type
+	symAxioms map[string][]string
 	trivial   int
 	strLits   map[string]string
 	strLitOrder []string
@@ -98,7 +100,7 @@ func newEngine() *Engine {
 		unmod: map[string]bool{}, assumed: map[string]bool{}, notes: map[string]bool{}, ordinals: map[string]int{},
 		typeTags: map[string]int{}, tagTypes: map[int]types.Type{}, usedUF: map[string]bool{}, boxNotes: map[string]bool{},
 		strLits: map[string]string{}, floatLits: map[string]string{}, gnn: map[*types.Var]bool{}, boxedAll: map[types.Object]bool{},
-		defs: map[string]string{}, dynUF: map[string]*UFDecl{},
+		defs: map[string]string{}, dynUF: map[string]*UFDecl{}, leafTypes: map[string]types.Type{}, symAxioms: map[string][]string{},
 	}
 }
 
